@@ -79,6 +79,11 @@ type Op struct {
 	S    *Str   `json:"s,omitempty"`
 	E    *Str   `json:"e,omitempty"`
 	N    int    `json:"n,omitempty"`
+	// Poison (batch, plain sqlite only): the Poison-th mutation (1-based), a
+	// set of a dedicated ASCII key, is made to fail inside the transaction by
+	// a trigger installed in the real database file; the batch must then be
+	// all or nothing.
+	Poison int `json:"poison,omitempty"`
 }
 
 // Config selects the implementation under test.
@@ -362,12 +367,21 @@ func genC10(tier string, run int, r *simcore.Rand) *harness.Plan {
 			op = Op{K: "del", Key: g.key()}
 		case x < 66:
 			op = g.batch()
+			if cfg.Impl == "sqlite" && !cfg.Buffered && r.Bool(0.35) {
+				// a statement that fails in the middle of the transaction
+				i := r.Intn(len(op.Muts) + 1)
+				bad := Mut{Key: mkStr(fmt.Sprintf("poison|%d", r.Intn(1000)), 0, 0), Val: g.val()}
+				op.Muts = append(op.Muts[:i], append([]Mut{bad}, op.Muts[i:]...)...)
+				op.Poison = i + 1
+			}
 		case x < 85:
 			op = g.find(false)
 		case x < 91:
 			op = g.find(true)
 		case x < 96:
-			if cfg.Buffered {
+			if cfg.Impl == "leveldb" && r.Bool(0.4) {
+				op = Op{K: "compact"}
+			} else if cfg.Buffered {
 				op = Op{K: "flush"}
 			} else {
 				op = Op{K: "get", Key: g.key()}
